@@ -442,6 +442,75 @@ def gen_case_v1(rng, policy, depth, nm):
     return ty, target, where, facts
 
 
+# ---- how the policy is written down: spelling of the value x the Meta it arrives through
+#
+# v1_on_unknown_key is documented as a KeyAction member or its name as a string (any letter case: the library upper-cases strings
+# before the lookup).  It can stand in the class's first Meta (the inner Meta of a JSONWizard class, or the Meta bound to a plain
+# dataclass), or arrive later through LoadMeta(v1_on_unknown_key=..).bind_to(cls) on a class that already has a Meta — its inner one, or
+# an earlier DumpMeta / LoadMeta binding.  Every combination declares the same policy, so the outcome must not depend on it.
+
+POLICY_FORMS = ['inner-str', 'inner-lower', 'inner-enum', 'late-str', 'late-str', 'late-lower', 'late-lower', 'late-enum']
+PRIOR_BINDINGS = ['DumpMeta(skip_defaults=False)', 'LoadMeta(raise_on_unknown_json_key=False)', "DumpMeta(marshal_date_time_as='ISO_FORMAT')"]
+
+
+class RawSrc(str):
+    """a Meta value that is rendered into the class source as an expression (an Enum member) and encoded for the model as its name"""
+
+    def __new__(cls, value, src):
+        o = super().__new__(cls, value)
+        o.src = src
+        return o
+
+    def __repr__(self):
+        return self.src
+
+    def __reduce__(self):
+        return (RawSrc, (str.__str__(self), self.src))
+
+
+def _find_cls(t, name):
+    if t['k'] == 'cls':
+        if t['info']['name'] == name:
+            return t
+        for _n, ft in t['ftys']:
+            r = _find_cls(ft, name)
+            if r is not None:
+                return r
+        return None
+    for m in t.get('a', []):
+        r = _find_cls(m, name)
+        if r is not None:
+            return r
+    return None
+
+
+def apply_policy_form(frng, ty, cls_name, form, key='v1_on_unknown_key'):
+    """(type to BUILD, source to append): a copy of `ty` in which class `cls_name` states its `key` setting in the given form; `ty`
+    itself — what the reference and the model are told — keeps the plain declaration"""
+    bty = copy.deepcopy(ty)
+    node = _find_cls(bty, cls_name)
+    meta = node['info']['meta']
+    val = meta[key]
+    where_, spelling = form.split('-')
+    spelled = {'str': val, 'lower': val.lower(),
+               'enum': RawSrc(val, f"__import__('dataclass_wizard.v1.enums', fromlist=['KeyAction']).KeyAction.{val}")}[spelling]
+    if where_ == 'inner':
+        meta[key] = spelled
+        return bty, ''
+    del meta[key]
+    src = ''
+    if not meta:
+        # no first Meta is left: the class gets an earlier binding of another kind — or none (then the late one is its first Meta)
+        node['info']['meta'] = None
+        prior = frng.choice(PRIOR_BINDINGS + [None])
+    else:
+        prior = frng.choice(PRIOR_BINDINGS + [None, None, None])
+    if prior:
+        src += f'{prior}.bind_to({cls_name})\n'
+    src += f'LoadMeta({key}={spelled!r}).bind_to({cls_name})\n'
+    return bty, src
+
+
 def v1_eff_policy(policy, catch, own_setting, root_setting):
     """the policy in force for the target in a view: a CatchAll field captures everywhere; otherwise the class's own v1_on_unknown_key wins,
     else the one of the view's root, else unknown keys are dropped"""
@@ -524,6 +593,8 @@ def run_v1(ctx: C.Ctx):
     ctx.rule = ('v1 engine: policy in {ignore (unset / IGNORE), v1_on_unknown_key RAISE / WARN, CatchAll without default, CatchAll with default '
                 '(None / default_factory)} declared on the class itself or cascading from the root × nesting depth 0..2 × tagged classes loaded '
                 'directly with and without their tag key in the document × a set U of 0..3 extra keys (as in the default stream) × 1..3 repetitions '
+                '× the way the policy is written down (KeyAction member / its name in upper or lower case; in the first Meta of the class, or '
+                'added by a later LoadMeta(..).bind_to on a class that has an inner Meta or an earlier DumpMeta / LoadMeta binding) '
                 '× history (class first used by a load / first used by a dump of an instance built in code / reached through a second root class): '
                 'outcome vs the specification (RAISE rejects iff U non-empty and names only unknown keys and the class; WARN logs and loads; '
                 'catch-all holds exactly U in document order, never the tag key, else its default; to_dict writes U back), vs the Lean model of the '
@@ -560,8 +631,16 @@ def run_v1(ctx: C.Ctx):
         dump_between = rng.random() < 0.3
         if any(kv == 'second' for kv, _ in plan):
             extra_src += second_root_src(sec_name, tinfo['name'], ['v1 = True'] + ([f'v1_on_unknown_key = {sec_setting!r}'] if sec_setting else []))
+        # ---- how the policy is written down (own generator: the class models of the stream stay what they were)
+        frng = random.Random(f'{ctx.prop_id}:{ctx.seed}:v1:policy-form:{j}')
+        bty, form = ty, None
+        if policy in ('raise', 'warn', 'ignore-explicit'):
+            form = frng.choice(POLICY_FORMS)
+            decl = tinfo['name'] if where == 'own' else ty['info']['name']
+            bty, form_src = apply_policy_form(frng, ty, decl, form)
+            extra_src += form_src
         try:
-            built = model.Built(ty, extra_src=extra_src)
+            built = model.Built(bty, extra_src=extra_src)
         except Exception as e:
             ctx.count('build_error')
             ctx.notes.setdefault('build_errors', []).append(repr(e)[:300])
@@ -614,6 +693,9 @@ def run_v1(ctx: C.Ctx):
                     'history': history, 'engine': 'v1', 'tag_in_doc': has_tag and tag_key in inner_doc(d, depth),
                     'views': [[v['view'], v['policy'], sorted(v['U'])] for v in views], 'second_root_setting': sec_setting,
                     'dump_between_loads': dump_between}
+            if form is not None:
+                case['policy_form'] = form
+                ctx.count('v1:policy-form:' + form)
             kind = 'unknown:v1:' + policy
             ctx.seen(kind, case, nontrivial=bool(U))
             if len(views) > 1:
